@@ -213,6 +213,16 @@ class LoaderMonitor(Monitor):
         evaluated("loader-succeeds-iff-clash-free")
         if ctx["strict"]:
             evaluated("prop:C04")
+        if kind == "raise" and not valid and ctx["strict"]:
+            # C04: "otherwise it raises DuplicateURIPrefixes or DuplicatePrefixes (URI clashes reported first)" - through
+            # any loader
+            a_ = api()
+            uri_clash = any(c[0] == "uri" for c in spec.clashes(recs))
+            want_cls = a_.DuplicateURIPrefixes if uri_clash else a_.DuplicatePrefixes
+            if not isinstance(val, want_cls):
+                violation(["C04"], mon, "loader-raises-another-error-than-the-documented-duplicate-error", expected=want_cls.__name__,
+                          observed=val, denoted=dicts(recs), **w)
+            return
         if kind == "raise":
             if valid:
                 # C13: the loader does not behave as its input dictates; C04: construction through a loader must succeed
